@@ -4,55 +4,41 @@
 # scratch copy of /repo outside /repo and /verif; the quick check of its
 # property must report a violation (exit 1). Every harmless edit
 # (selftest/harmless/*.patch) must leave all listed checks at exit 0.
+# Entries run in parallel (JOBS, default 6), each in its own scratch copy
+# (selftest/one.sh).
 set -u
 cd /verif || exit 2
-export GOFLAGS=-mod=mod GOPROXY=off GOSUMDB=off GOTOOLCHAIN=local
 want="$*"
-T=$(mktemp -d "${TMPDIR:-/tmp}/govc-selftest.XXXXXX") || exit 2
-trap 'rm -rf "$T"' EXIT INT TERM
-fail=0; n=0
-run_one() { # patch reverse(0/1) property expect name
-  patch=$(readlink -f "$1"); rev=$2; prop=$3; expect=$4; name=$5
-  if [ -n "$want" ]; then case " $want " in *" $prop "*) ;; *) return;; esac; fi
-  rm -rf "$T/repo"; mkdir -p "$T/repo"
-  rsync -a --exclude .git /repo/ "$T/repo/"
-  if [ "$rev" = 1 ]; then (cd "$T/repo" && patch -s -R -p1 < "$patch") || { echo "selftest: $name: patch does not apply"; fail=1; return; }
-  else (cd "$T/repo" && patch -s -p1 < "$patch") || { echo "selftest: $name: patch does not apply"; fail=1; return; }; fi
-  out=$(bin/govc -repo "$T/repo" -specs /verif/specs -prop "$prop" -tier quick -replaydir "$T/replay" 2>&1); rc=$?
-  n=$((n+1))
-  if [ "$expect" = violation ] && [ $rc -eq 1 ]; then echo "ok   $name ($prop): violation reported: $(echo "$out" | grep -m1 VIOLATION | sed 's/.*replay=//' | xargs basename 2>/dev/null)"
-  elif [ "$expect" = pass ] && [ $rc -eq 0 ]; then echo "ok   $name ($prop): still proved"
-  elif [ "$expect" = pass-or-undecided ] && { [ $rc -eq 0 ] || [ $rc -eq 2 ]; } && ! echo "$out" | grep -q '^VIOLATION'; then echo "ok   $name ($prop): no alarm (exit $rc)"
-  elif [ "$expect" = undecided ] && [ $rc -eq 2 ]; then echo "ok   $name ($prop): refused as undecided: $(echo "$out" | grep -m1 UNDECIDED | cut -c1-120)"
-  else echo "FAIL $name ($prop): expected $expect, exit $rc"; echo "$out" | tail -3; fail=1; fi
-}
-for j in selftest/mutants/*.json; do
-  [ -f "$j" ] || continue
-  p=${j%.json}.patch
-  prop=$(python3 -c "import json;print(json.load(open('$j'))['property'])")
-  rev=$(python3 -c "import json;print(1 if json.load(open('$j')).get('reverse') else 0)")
-  exp=$(python3 -c "import json;print(json.load(open('$j')).get('expect','violation'))")
-  en=$(python3 -c "import json;print(0 if json.load(open('$j')).get('enabled',True) is False else 1)")
-  [ "$en" = 1 ] || continue
-  claimed=$(python3 -c "import json;print(1 if '$prop' in [c['property_id'] for c in json.load(open('MANIFEST.json'))['checks']] else 0)")
-  [ "$claimed" = 1 ] || continue
-  run_one "$p" "$rev" "$prop" "$exp" "$(basename $p .patch)"
-done
-for d in seeded/*/; do
-  [ -f "$d/meta.json" ] || continue
-  prop=$(python3 -c "import json;m=json.load(open('$d/meta.json'));print(m['property'])")
-  det=$(python3 -c "import json;m=json.load(open('$d/meta.json'));print(1 if (m.get('detected_by') or {}).get(m['property'],{}).get('exit')==1 and not m.get('superseded') else 0)")
-  [ "$det" = 1 ] || continue
-  run_one "$d/patch.diff" 0 "$prop" violation "seeded/$(basename $d)"
-done
-for j in selftest/harmless/*.json; do
-  [ -f "$j" ] || continue
-  p=${j%.json}.patch
-  exp=pass
-  [ "$(python3 -c "import json;print(1 if json.load(open('$j')).get('allow_undecided') else 0)")" = 1 ] && exp=pass-or-undecided
-  for prop in $(python3 -c "import json;print(' '.join(json.load(open('$j'))['properties']))"); do
-    run_one "$p" 0 "$prop" $exp "harmless/$(basename $p .patch)"
-  done
-done
-echo "selftest: $n runs, $( [ $fail = 0 ] && echo all as expected || echo FAILURES )"
-exit $fail
+JOBS=${JOBS:-6}
+L=$(mktemp "${TMPDIR:-/tmp}/govc-selftest-jobs.XXXXXX") || exit 2
+O=$(mktemp "${TMPDIR:-/tmp}/govc-selftest-out.XXXXXX") || exit 2
+trap 'rm -f "$L" "$O"' EXIT INT TERM
+python3 - "$want" > "$L" <<'PY'
+import json,glob,os,sys
+want=sys.argv[1].split()
+claimed=[c['property_id'] for c in json.load(open('MANIFEST.json'))['checks']]
+def emit(patch,rev,prop,exp,name):
+    if want and prop not in want: return
+    print("\t".join([patch,str(rev),prop,exp,name]))
+for j in sorted(glob.glob('selftest/mutants/*.json')):
+    m=json.load(open(j))
+    if m.get('enabled',True) is False or m['property'] not in claimed: continue
+    emit(j[:-5]+'.patch',1 if m.get('reverse') else 0,m['property'],m.get('expect','violation'),os.path.basename(j)[:-5])
+for d in sorted(glob.glob('seeded/*/')):
+    if not os.path.exists(d+'meta.json'): continue
+    m=json.load(open(d+'meta.json'))
+    if m.get('superseded'): continue
+    if (m.get('detected_by') or {}).get(m['property'],{}).get('exit')!=1: continue
+    emit(d+'patch.diff',0,m['property'],'violation','seeded/'+os.path.basename(d.rstrip('/')))
+for j in sorted(glob.glob('selftest/harmless/*.json')):
+    m=json.load(open(j))
+    exp='pass-or-undecided' if m.get('allow_undecided') else 'pass'
+    for prop in m['properties']:
+        emit(j[:-5]+'.patch',0,prop,exp,'harmless/'+os.path.basename(j)[:-5])
+PY
+n=$(wc -l < "$L")
+tr '\t' '\n' < "$L" | xargs -d '\n' -n 5 -P "$JOBS" selftest/one.sh > "$O" 2>&1
+cat "$O"
+if grep -q '^FAIL' "$O" || [ "$(grep -c '^ok' "$O")" -ne "$n" ]; then echo "selftest: $n runs, FAILURES"; exit 1; fi
+echo "selftest: $n runs, all as expected"
+exit 0
